@@ -1,0 +1,8 @@
+//go:build !verif
+// +build !verif
+
+package mangos
+
+func verifOnNew(*Message)          {}
+func verifOnFree(*Message, int32)  {}
+func verifOnClone(*Message, int32) {}
